@@ -1203,8 +1203,9 @@ def np_array(E, fv, st, node, prog):
     return fv.new_loc(st, dt, [z3.IntVal(len(rows))], {"v": t}, name="lit")
 
 
-def np_max(E, fv, st, node, prog):
-    (a,) = _args(fv, st, node, prog, 1)
+def np_max(E, fv, st, node, prog, a=None):
+    if a is None:
+        (a,) = _args(fv, st, node, prog, 1)
     USED.add("np.max(a) on a non-empty 1-D integer array: an element of a that bounds all elements")
     if not isinstance(a, SArr) or fv.arr_ndim(st, a) != 1:
         _err("np.max on non-1-D array")
@@ -1267,6 +1268,8 @@ def method(E, fv, st, recv, name, node, prog):
             return fv.new_loc(st, o.dtype, fv.arr_shape(st, recv), comps, name="copy")
         if name == "sum":
             return _sum_of(E, fv, st, recv, node, prog)
+        if name == "max" and not node.args and not node.keywords:
+            return np_max(E, fv, st, node, prog, recv)
         if name == "sort":
             o, n, new = _sorted_of(fv, st, recv)
             fv.assume_dtype_range(st, o.dtype, new, 1)
